@@ -60,6 +60,7 @@ static void run_group_script(const char *ops) {
 	dispatch_group_t g = dispatch_group_create();
 	atomic_store(&fin_runs, 0); atomic_store(&fin_ctx_id, 0); atomic_store(&fin_queue_id, -1); atomic_store(&delivered, 0);
 	long x = 1, in = 0, enters = 0, pend = 0, asyncs = 0; int hasfin = 0, ctxid = 0;   // harness-side bookkeeping of what it holds
+	settle2(&nq->do_ref_cnt, NULL); int nqbase = nq->do_ref_cnt;   // groups leaked by earlier scripts with pending notifications keep theirs
 	printf("G");
 	for (const char *p = ops; *p; p++) {
 		switch (*p) {
@@ -86,8 +87,8 @@ static void run_group_script(const char *ops) {
 		}
 		int alive = (x > 0) || (in > 0) || (enters > 0) || (pend > 0);
 		settle2(alive ? &g->do_ref_cnt : NULL, &nq->do_ref_cnt);
-		if (alive && g->do_vtable != NULL) printf(" %d %d %d %d", g->do_xref_cnt, g->do_ref_cnt, nq->do_ref_cnt, atomic_load(&delivered));
-		else printf(" -77 -77 %d %d", nq->do_ref_cnt, atomic_load(&delivered));
+		if (alive && g->do_vtable != NULL) printf(" %d %d %d %d", g->do_xref_cnt, g->do_ref_cnt, nq->do_ref_cnt - nqbase, atomic_load(&delivered));
+		else printf(" -77 -77 %d %d", nq->do_ref_cnt - nqbase, atomic_load(&delivered));
 	}
 	if (hasfin && ctxid) wait_for(&fin_runs, 1);
 	usleep(2000);
